@@ -123,7 +123,8 @@ def check(run):
     # tail regime: small but not negligible Gaussian product factors (where a premature screening would bite)
     k = 0
     for la, lb in itertools.product(range(6), repeat=2):
-        for u in (TAIL_LADDER if run.tier == "thorough" else [TAIL_LADDER[(k + j * 3) % len(TAIL_LADDER)] for j in range(2)]):
+        for u in (TAIL_LADDER if run.tier == "thorough" else
+                  [TAIL_LADDER[(k + j * 3) % len(TAIL_LADDER)] for j in range(2)] + ([28.0, 30.5, 32.0] if la + lb >= 7 else [])):
             s1, s2 = tail_pair(rng, la, lb, u)
             one_case(run, [s1, s2])
             run.count("tail regime mu*R^2=%g" % u)
